@@ -292,12 +292,25 @@ theorem audMatchesAny_contains {aud : Claim} {urls : List String} (h : audMatche
   obtain ⟨u, hu, hm⟩ := h
   exact ⟨u, hu, audMatches_contains hm⟩
 
-theorem clientExpiry_ok {c : Claims} {E : Int} (h : clientExpiry c = .ok E) : c.exp.toInt64 = some E := by
+theorem clientExpiry_ok' {c : Claims} {E : Int} (h : clientExpiry c = .ok E) :
+    c.exp.toInt64 = some E ∧ 0 < E := by
   unfold clientExpiry at h
   split at h
-  · rename_i t ht; injection h with h; subst h; rw [ht]; rfl
-  · rename_i i hi; injection h with h; subst h; rw [hi]; rfl
+  · rename_i t ht
+    split at h
+    · cases h
+    · rename_i hpos; injection h with h; subst h; rw [ht]; exact ⟨rfl, by omega⟩
+  · rename_i i hi
+    split at h
+    · cases h
+    · rename_i hpos; injection h with h; subst h; rw [hi]; exact ⟨rfl, by omega⟩
   · cases h
+
+theorem clientExpiry_ok {c : Claims} {E : Int} (h : clientExpiry c = .ok E) : c.exp.toInt64 = some E :=
+  (clientExpiry_ok' h).1
+
+theorem clientExpiry_pos {c : Claims} {E : Int} (h : clientExpiry c = .ok E) : 0 < E :=
+  (clientExpiry_ok' h).2
 
 /-- what `Valid()` says about a numeric exp: second 0 is "no exp", otherwise whole-second comparison -/
 theorem claimsValid_exp {c : Claims} {now E : Int} (h : claimsValid c now = true)
@@ -321,7 +334,7 @@ theorem clientAuth_ok {cfg : Config} {clients : List ClientReg} {formId : String
     {st st' : JtiStore} {cid : String}
     (h : clientAssertionAuth cfg clients formId w now st = (.ok cid, st')) :
     ∃ t E, clientPre cfg clients formId w now = .ok t ∧ jtiValid st t.jti now = false ∧
-      clientExpiry t.jws.claims = .ok E ∧ jtiSet st t.jti (E * second) now = (false, st') ∧
+      clientExpiry t.jws.claims = .ok E ∧ jtiSet st t.jti ((E + 1) * second) now = (false, st') ∧
       clientFin cfg t = .ok cid := by
   unfold clientAssertionAuth at h
   split at h
@@ -356,8 +369,8 @@ theorem clientAuth_store (cfg : Config) (clients : List ClientReg) (formId : Str
       · exact Or.inl rfl
       · rename_i E _
         split
-        · rename_i st'' hset; exact Or.inr ⟨t.jti, E * second, by rw [hset]⟩
-        · rename_i st'' hset; exact Or.inr ⟨t.jti, E * second, by rw [hset]⟩
+        · rename_i st'' hset; exact Or.inr ⟨t.jti, (E + 1) * second, by rw [hset]⟩
+        · rename_i st'' hset; exact Or.inr ⟨t.jti, (E + 1) * second, by rw [hset]⟩
 
 /-! ### success path of the JWT-bearer grant -/
 
@@ -718,18 +731,21 @@ theorem bearerStep_accepts (cfg : BearerConfig) (strat : List String → String 
         exact jtiSet_ok_blocked hset hnow
       · rw [hjt] at hempty; exact absurd hempty hj
 
-/-- the instant lies outside the window in which whole-second validity and nanosecond memory disagree -/
+/-- the instant lies outside the window in which whole-second validity and nanosecond memory disagreed
+    before repair b819172 (kept for the regression statements) -/
 def OutsideWindow (E : Int) (now : Int) : Prop := now ≤ E * second ∨ (E + 1) * second ≤ now
 
-/-- client assertion: the same, for presentations outside the window and with exp ≠ 0 -/
+/-- client assertion: accepting a presentation of ticket (j, E) flips `Blocked j (E + 1)` — the record
+    written lives until the end of the second `E`, which is as long as `Valid()` accepts the assertion.
+    No hypothesis on the instant or on `E` (before the repairs: `E ≠ 0` and `OutsideWindow E now`). -/
 theorem clientStep_accepts (cfg : Config) (clients : List ClientReg) (ep : Endpoint)
-    (j : String) (E : Int) (hE0 : E ≠ 0) (a : String × Wire) (st : JtiStore) (now : Int)
-    (hp : hasTicket j E a.2 = true) (hw : OutsideWindow E now)
+    (j : String) (E : Int) (a : String × Wire) (st : JtiStore) (now : Int)
+    (hp : hasTicket j E a.2 = true)
     (ho : (clientStep cfg clients ep a now st).1.isOk = true) :
-    ¬ Blocked j E st now ∧ Blocked j E (clientStep cfg clients ep a now st).2 now := by
+    ¬ Blocked j (E + 1) st now ∧ Blocked j (E + 1) (clientStep cfg clients ep a now st).2 now := by
   obtain ⟨x, hwire, hjti, hexp⟩ := hasTicket_jws hp
   have ho' : (clientAssertionAuth cfg clients a.1 a.2 now st).1.isOk = true := atEndpoint_ok ho
-  show ¬ Blocked j E st now ∧ Blocked j E (clientAssertionAuth cfg clients a.1 a.2 now st).2 now
+  show ¬ Blocked j (E + 1) st now ∧ Blocked j (E + 1) (clientAssertionAuth cfg clients a.1 a.2 now st).2 now
   cases hr : clientAssertionAuth cfg clients a.1 a.2 now st with
   | mk r st' =>
     rw [hr] at ho'
@@ -742,18 +758,17 @@ theorem clientStep_accepts (cfg : Config) (clients : List ClientReg) (ep : Endpo
       injection hw' with hw'
       subst hw'
       have hjt : t.jti = j := by rw [hjti] at htj; injection htj with htj; exact htj.symm
+      have hpos : 0 < E' := clientExpiry_pos hE'
       have hEE : E' = E := by
         have := clientExpiry_ok hE'
         rw [hexp] at this; injection this with this; exact this.symm
       subst hEE
       rw [hjt] at hset
-      have hnow : now ≤ E' * second := by
+      have hnow : now ≤ (E' + 1) * second := by
         rcases claimsValid_exp hval hexp with h0 | h1
-        · exact absurd h0 hE0
+        · omega
         · have := nowSec_le h1
-          rcases hw with hw | hw
-          · exact hw
-          · omega
+          omega
       exact jtiSet_ok_blocked hset hnow
 
 /-! ### both paths are instances of the three-step protocol -/
@@ -782,7 +797,7 @@ theorem clientAuth_eq_runProto (cfg : Config) (clients : List ClientReg) (formId
       simp only [Bool.true_and]
     | ok x =>
       have hp : clientProto cfg clients formId w now =
-          ⟨none, true, t.jti, none, x * second, .jti_known, clientFin cfg t⟩ := by
+          ⟨none, true, t.jti, none, (x + 1) * second, .jti_known, clientFin cfg t⟩ := by
         unfold clientProto; rw [hpre]; dsimp only; rw [hE]
       unfold clientAssertionAuth
       rw [hpre, hp]
